@@ -835,6 +835,36 @@ pub fn cmd_selfcheck(a: &[String]) -> i32 {
     0
 }
 
+/// Replay equivalence: a run generated from a seed and the run replayed from its recorded tape
+/// must be the same run (status, distinct key, trace digest, recorded tape).
+pub fn cmd_replaycheck(a: &[String]) -> i32 {
+    let (Some(pid), Some(n)) = (a.first(), a.get(1).and_then(|s| s.parse::<u64>().ok())) else {
+        eprintln!("usage: sim replaycheck <PROP> <n>");
+        return 2;
+    };
+    let Some(prop) = props::find(pid) else { return 2 };
+    let verif_seed = env_u64("VERIF_SEED").unwrap_or(DEFAULT_SEED);
+    let mut bad = 0;
+    for idx in 0..n {
+        let seed = run_seed(verif_seed, prop.id, idx);
+        let r1 = run_tape(Tape::generate(seed), false, prop.engine);
+        let r2 = run_tape(Tape::replay(r1.tape.clone()), false, prop.engine);
+        let same = r1.status == r2.status && r1.key == r2.key && r1.digest == r2.digest && r1.tape == r2.tape;
+        if !same {
+            bad += 1;
+            if bad <= 5 {
+                println!("replay differs at run {idx}: status {:?} vs {:?}, key {:016x} vs {:016x}, digest {:016x} vs {:016x}, tape {} vs {} cells", r1.status, r2.status, r1.key, r2.key, r1.digest, r2.digest, r1.tape.len(), r2.tape.len());
+            }
+        }
+    }
+    println!("replaycheck {pid}: {n} runs generated and replayed from their tapes: {bad} differ");
+    if bad > 0 {
+        2
+    } else {
+        0
+    }
+}
+
 pub fn cmd_hashseed_test() -> i32 {
     // Shows that the interposer owns HashMap iteration order.
     let order = |seed: u64| -> Vec<u32> {
